@@ -58,6 +58,15 @@ pub struct Ctx<'a> {
     acks: HashMap<(String, String), Vec<(Option<u64>, u64, Option<(u64, u64)>)>>,
 }
 
+/// Ack IDs are numbers; spellings that denote the same number ("+5", "005") name the same
+/// delivery as far as the server is concerned, so the model indexes them by value.
+pub fn canon_ack(s: &str) -> String {
+    match s.parse::<u64>() {
+        Ok(v) => v.to_string(),
+        Err(_) => s.to_string(),
+    }
+}
+
 impl<'a> Ctx<'a> {
     pub fn new(plan: &'a Plan, m: &'a Model<'a>) -> Self {
         let mut mods: HashMap<(String, String), Vec<Modification>> = HashMap::new();
@@ -68,7 +77,7 @@ impl<'a> Ctx<'a> {
                     let definite = c.returned_ok();
                     let end_seq = if c.code().is_some() { c.ret_seq } else { None };
                     for a in ack_ids {
-                        mods.entry((sub.clone(), a.clone())).or_default().push(Modification {
+                        mods.entry((sub.clone(), canon_ack(a))).or_default().push(Modification {
                             inv_seq: c.inv_seq,
                             inv_t: c.inv_t,
                             end_seq,
@@ -83,7 +92,7 @@ impl<'a> Ctx<'a> {
                     let done = if c.returned_ok() { Some((c.ret_seq.unwrap(), c.ret_t.unwrap())) } else { None };
                     let end_seq = if c.code().is_some() { c.ret_seq } else { None };
                     for a in ack_ids {
-                        acks.entry((sub.clone(), a.clone())).or_default().push((end_seq, c.inv_seq, done));
+                        acks.entry((sub.clone(), canon_ack(a))).or_default().push((end_seq, c.inv_seq, done));
                     }
                 }
                 _ => {}
@@ -106,11 +115,11 @@ impl<'a> Ctx<'a> {
                     (None, None) => None,
                 };
                 for a in ack_ids {
-                    acks.entry((s.sub.clone(), a.clone())).or_default().push((end_seq, *seq, done));
+                    acks.entry((s.sub.clone(), canon_ack(a))).or_default().push((end_seq, *seq, done));
                 }
                 for (i, a) in modacks.iter().enumerate() {
                     let n = secs.get(i).cloned().unwrap_or(0);
-                    mods.entry((s.sub.clone(), a.clone())).or_default().push(Modification {
+                    mods.entry((s.sub.clone(), canon_ack(a))).or_default().push(Modification {
                         inv_seq: *seq,
                         inv_t: *t,
                         end_seq,
@@ -164,7 +173,7 @@ impl<'a> Ctx<'a> {
                 }
             }
             _ => {
-                let key = (d.sub.clone(), d.recv.ack_id.clone());
+                let key = (d.sub.clone(), canon_ack(&d.recv.ack_id));
                 if let Some(list) = self.mods.get(&key) {
                     for md in list {
                         if md.end_seq.map(|e| e < d.lo_seq).unwrap_or(false) {
@@ -334,6 +343,28 @@ pub fn facts(ctx: &Ctx) -> Facts {
         for b in pulls.iter().skip(i + 1).take(64) {
             if a.inv_seq < b.ret_seq_or_max() && b.inv_seq < a.ret_seq_or_max() && sub_of(a) == sub_of(b) && a.client != b.client {
                 f.overlapping_consumers += 1;
+            }
+        }
+    }
+    // operations on one resource name that overlapped, at least one of them a create/delete
+    {
+        let mut by_name: BTreeMap<&str, Vec<&Call>> = BTreeMap::new();
+        for c in m.calls.values() {
+            let n = match &c.req {
+                Req::CreateTopic { topic } | Req::DeleteTopic { topic } | Req::GetTopic { topic } | Req::Publish { topic, .. } => topic.as_str(),
+                Req::CreateSub { sub, .. } | Req::DeleteSub { sub } | Req::GetSub { sub } | Req::Pull { sub, .. } | Req::Ack { sub, .. } | Req::ModAck { sub, .. } => sub.as_str(),
+                _ => continue,
+            };
+            by_name.entry(n).or_default().push(c);
+        }
+        for list in by_name.values() {
+            for (i, a) in list.iter().enumerate() {
+                for b in list.iter().skip(i + 1).take(32) {
+                    let mutating = |c: &Call| matches!(c.req, Req::CreateTopic { .. } | Req::DeleteTopic { .. } | Req::CreateSub { .. } | Req::DeleteSub { .. });
+                    if a.inv_seq < b.ret_seq_or_max() && b.inv_seq < a.ret_seq_or_max() && (mutating(a) || mutating(b)) {
+                        f.overlapping_name_ops += 1;
+                    }
+                }
             }
         }
     }
@@ -968,7 +999,11 @@ fn rule_c06(ctx: &Ctx, out: &mut Vec<Violation>) {
             if between.len() != 1 || !between[0].quiescent {
                 continue;
             }
-            let before_ok = m.barriers.iter().rev().find(|x| x.seq < a.seq).map(|x| x.quiescent).unwrap_or(false);
+            // ... and the barrier in front of the first snapshot belongs to the same audit (same
+            // phase) and was quiescent too: the two views are >= 20 ms of quiescence apart, so a
+            // wake-up that was merely in progress at the first view has completed by the second.
+            let before = m.barriers.iter().rev().find(|x| x.seq < a.seq);
+            let before_ok = before.map(|x| x.quiescent && x.phase == between[0].phase).unwrap_or(false);
             if !before_ok {
                 continue;
             }
